@@ -15,4 +15,8 @@ omit [FloorRing α] in
 theorem pixcoord_rotate (p o : Pt α) (d : Dir α) :
     FormulasC15.pixcoord_rotate d.c d.s o.x o.y p.x p.y = p.rotate o d := rfl
 
+
+/-- which attributes the translated function reads. -/
+theorem reads_eq : FormulasC15.pixcoord_rotate_reads = ["angle_c", "angle_s", "center_x", "center_y", "self_x", "self_y"] := rfl
+
 end RegionsVerif.Bridge.C15
